@@ -431,6 +431,18 @@ func (c *Client) deletePendingCmdByTag(tag string) command {
 	return nil
 }
 
+func (c *Client) isPendingCmd(base *Command) bool {
+	c.mutex.Lock()
+	defer c.mutex.Unlock()
+
+	for _, cmd := range c.pendingCmds {
+		if cmd.base() == base {
+			return true
+		}
+	}
+	return false
+}
+
 func (c *Client) findPendingCmdFunc(f func(cmd command) bool) command {
 	c.mutex.Lock()
 	defer c.mutex.Unlock()
@@ -1077,11 +1089,15 @@ func (ce *commandEncoder) end() {
 // A CRLF is written and the encoder is flushed. Callers must call
 // commandEncoder.end to release the lock.
 func (ce *commandEncoder) flush() {
-	if err := ce.Encoder.CRLF(); err != nil {
+	if err := ce.Encoder.CRLF(); err != nil && ce.client.isPendingCmd(ce.cmd) {
 		// TODO: consider stashing the error in Client to return it in future
 		// calls
 		ce.client.closeWithError(err)
 	}
+	// If the command isn't pending anymore, the server has already completed
+	// it (e.g. it has refused a synchronizing literal with a tagged NO): the
+	// encoding error only concerns this command, the connection is still in
+	// a consistent state.
 	ce.Encoder = nil
 }
 
